@@ -24,18 +24,38 @@ func opTimeout(h time.Duration) time.Duration {
 
 type ival struct{ a, b time.Duration }
 
+// slack returns the total delay the harness injected at in-library yield sites
+// (amplifier, DESIGN §5) by yields that began in [a-YieldMax, b]. Timing bounds
+// are extended by it: the bounds speak of store latency, not of preemption the
+// harness itself manufactures.
+func (v *View) slack(a, b time.Duration) time.Duration {
+	if v.Spec.YieldP <= 0 {
+		return 0
+	}
+	var sum time.Duration
+	for _, e := range v.yields {
+		if e.VT >= a-v.Spec.YieldMax && e.VT <= b {
+			sum += time.Duration(e.N)
+		}
+	}
+	return sum
+}
+
 // faultIvals: per client, intervals during which a fault acted on it (faulted
 // store calls, partitions/crashes, watch closures as instants).
 func (v *View) faultIvals() map[string][]ival {
 	out := map[string][]ival{}
 	endVT := v.lastVT()
+	lim := 2*v.maxLeg() + time.Millisecond
 	for _, c := range v.CallsL {
-		if c.Fault == "" {
-			continue
-		}
 		b := c.ReturnVT
 		if c.Return < 0 {
 			b = endVT
+		}
+		// a call held by a harness breakpoint (or otherwise slower than two legs) is a
+		// fault on that client just like an injected error
+		if c.Fault == "" && b-c.IssueVT <= lim {
+			continue
 		}
 		out[c.Inst] = append(out[c.Inst], ival{c.IssueVT, b})
 	}
@@ -326,6 +346,7 @@ func (v *View) checkC03(res *Result) {
 		}
 		bound := is.H + 2*opTimeout(is.H)
 		dl := m.VT + bound
+		dl += v.slack(m.VT, dl)
 		kind := "replaced"
 		switch m.Op {
 		case "Expired", "Expire":
@@ -430,6 +451,7 @@ func (v *View) checkC03(res *Result) {
 			if c3 < dl {
 				dl = c3
 			}
+			dl += v.slack(lastOK, dl)
 			if v.End >= 0 && dl > v.End {
 				continue
 			}
@@ -700,6 +722,7 @@ func (v *View) checkC06(res *Result) {
 			}
 			for _, t0 := range t0s {
 				w := t0 + B
+				w += v.slack(t0, w)
 				if w > v.End {
 					continue
 				}
@@ -873,6 +896,7 @@ func (v *View) checkC10(res *Result) {
 			continue
 		}
 		dl := st.RetVT + 3*io.H
+		dl += v.slack(st.RetVT, dl)
 		if dl > v.End {
 			continue
 		}
@@ -1075,6 +1099,7 @@ func (v *View) checkC11(res *Result) {
 				continue
 			}
 			dl := n.rvt + G
+			dl += v.slack(n.vt, dl)
 			if v.End >= 0 && dl >= v.End {
 				continue
 			}
@@ -1193,6 +1218,7 @@ func (v *View) checkC11(res *Result) {
 // ---------------------------------------------------------------------------
 
 func (v *View) checkC12(res *Result) {
+	fiv12 := v.faultIvals()
 	for _, is := range v.Spec.Insts {
 		if !is.HealthOn {
 			continue
@@ -1281,6 +1307,7 @@ func (v *View) checkC12(res *Result) {
 					continue
 				}
 				dl := t.DownVT + v.Spec.TTL + B
+				dl += v.slack(t.DownVT, dl)
 				if dl > v.End {
 					continue
 				}
@@ -1289,6 +1316,9 @@ func (v *View) checkC12(res *Result) {
 					if a.Inst == is.Name && a.IsStop() && a.CallVT <= dl && a.CallVT >= t.DownVT {
 						stop = true
 					}
+				}
+				if overlaps(fiv12[is.Name], t.DownVT, dl) {
+					stop = true // a store fault on the instance inside the window
 				}
 				// somebody else (the outside party) occupying or touching the key in the window
 				// legitimately delays re-election
@@ -1381,6 +1411,7 @@ func (v *View) checkC17rounds(res *Result) {
 		n      int
 		lastRt time.Duration // return time of the last store call on this goroutine
 		lastI  int
+		yield  time.Duration // harness-injected delay on this goroutine since then
 	}
 	open := map[uint64]*round{}
 	for idx, e := range v.Ev {
@@ -1394,6 +1425,11 @@ func (v *View) checkC17rounds(res *Result) {
 		case "store.return":
 			if r := open[e.G]; r != nil {
 				r.lastRt = e.VT
+				r.yield = 0
+			}
+		case "yield":
+			if r := open[e.G]; r != nil {
+				r.yield += time.Duration(e.N)
 			}
 		case "store.issue":
 			r := open[e.G]
@@ -1402,7 +1438,7 @@ func (v *View) checkC17rounds(res *Result) {
 			}
 			if r.n == 0 {
 				d := e.VT - r.start
-				if d < jitterMinD || d > jitterMaxD {
+				if d < jitterMinD || d > jitterMaxD+r.yield {
 					res.viol("C17", "round-jitter", "round-initial-wait-out-of-range", fmt.Sprintf("%s round at %v: first attempt after %v (must be 10-100ms)", r.inst, r.start, d), idx)
 				}
 			} else {
@@ -1412,7 +1448,7 @@ func (v *View) checkC17rounds(res *Result) {
 					ideal = 5 * time.Second
 				}
 				lo := time.Duration(float64(ideal)*0.9) - time.Microsecond
-				hi := time.Duration(float64(ideal)*1.1) + time.Microsecond
+				hi := time.Duration(float64(ideal)*1.1) + time.Microsecond + r.yield
 				if gap < lo || gap > hi {
 					res.viol("C17", "round-backoff", fmt.Sprintf("round-backoff-out-of-range:attempt%d", r.n), fmt.Sprintf("%s round at %v: wait before attempt %d was %v, expected within 10%% of %v", r.inst, r.start, r.n+1, gap, ideal), idx)
 				}
